@@ -61,6 +61,8 @@ package parser
 //@   assume entry: src.Range.From.Index >= 0 && tgt.From.Index >= 0
 //@   modifies sm.Expressions, sm.SourceLinesToTarget, sm.TargetLinesToSource
 //@   ensures updatedFrom == src.Range.From
+// the text of the expression joins the list that HasChanged compares (C16), the earlier entries stay
+//@   ensures len(sm.Expressions) == len(old(sm.Expressions)) + 1 && sm.Expressions[len(sm.Expressions)-1] == src.Value && forall(k, 0, len(old(sm.Expressions)), sm.Expressions[k] == old(sm.Expressions)[k])
 // every line of the expression is recorded in both directions, the reverse entry inverting the forward one
 //@   ensures forall(j, 0, len(split(src.Value, "\n")), lineDone(sm, src, tgt, j))
 //@   ensures keptFwd(sm.SourceLinesToTarget, old(sm.SourceLinesToTarget), src) && keptRev(sm.TargetLinesToSource, old(sm.TargetLinesToSource), src, tgt)
@@ -339,6 +341,19 @@ package parser
 //@   use before strings.ReplaceAll#1: unesc_amp(arg0)
 //@   use before strings.ReplaceAll#2: unesc_sq(arg0)
 //@   use before strings.ReplaceAll#3: unesc_dq(arg0)
+
+// Constant CSS properties of a css component: the generator emits String(true), and the class name is a hash of that
+// text, so what the formatter writes back (Write -> String(false)) must carry name and value byte for byte.
+//@ func (ConstantCSSProperty) String [C08]
+//@   ensures implies(minified, result == cat(c.Name, ":", c.Value, ";"))
+//@   ensures implies(!minified, result == cat(c.Name, ": ", c.Value, ";\n"))
+//@ func (ConstantCSSProperty) Write [C08]
+//@   modifies *
+//@   assert before writeIndent#1: len(arg2) == 1 && arg2[0] == cat(old(c.Name), ": ", old(c.Value), ";\n")
+// ... and what is written for a constant attribute is exactly the text proved above to read back as the same value
+//@ func (ConstantAttribute) Write [C08]
+//@   modifies *
+//@   assert before writeIndent#1: len(arg2) == 1 && html.UnescapeString(vtext(old(ca), arg2[0])) == old(ca.Value) && isPrefix(cat(old(ca.Name), "="), arg2[0])
 
 // C06: ParseString parses exactly the text it is given, from its first byte: every position the parser records is a
 // position in the caller's string (inputs of 2 GiB and more are outside the claim).
